@@ -1554,11 +1554,12 @@ func ruleFindRoot(c *Ctx) []Obligation {
 	fbp := c.MustFn("yang.FindModuleByPrefix")
 	m := c.entryModel()
 	con := "the first prefix of an absolute path is resolved from the starting entry's node, captured before climbing to the root"
-	calls := c.callsTo(find, fbp)
+	// the prefix lookup and the switch may sit in a private helper of Find (inline.go)
+	calls := c.callsToDeep(find, fbp)
 	if len(calls) != 1 {
 		return []Obligation{undecided(R, con, c.Pos(find.Pos()), fmt.Sprintf("%d FindModuleByPrefix calls", len(calls)))}
 	}
-	ctx := calls[0].Common().Args[0]
+	ctx := resolveArg(calls[0].Common().Args[0])
 	_, f, base := loadedField(ctx)
 	var obs []Obligation
 	if f == m.fNode && isParamN(find, base, 0) {
@@ -1571,7 +1572,7 @@ func ruleFindRoot(c *Ctx) []Obligation {
 	toEntry := c.MustFn("yang.ToEntry")
 	var sw ssa.CallInstruction
 	var owner ssa.Value
-	for _, ci := range c.callsTo(find, toEntry) {
+	for _, ci := range c.callsToDeep(find, toEntry) {
 		arg := ci.Common().Args[0]
 		if mi, isMI := arg.(*ssa.MakeInterface); isMI {
 			arg = mi.X
@@ -1618,6 +1619,35 @@ func ruleFindRoot(c *Ctx) []Obligation {
 					continue // materialised && / ||: its operands were expanded above
 				}
 				extra = c.InstrPos(gg.If)
+			}
+		}
+	}
+	// where the switch lives in a helper, every other way out of the helper that hands back a tree (not an error)
+	// is taken under a comparison with the OWNER: staying in the current tree because the prefix's own (sub)module
+	// is its root is exactly the flaw the comparison with the owner prevents
+	if swFn := sw.Parent(); swFn != find && extra == "" {
+		for _, b := range swFn.Blocks {
+			r, isR := b.Instrs[len(b.Instrs)-1].(*ssa.Return)
+			if !isR || len(r.Results) == 0 {
+				continue
+			}
+			rv := resolveSpill(r.Results[0], r)
+			if isNilConst(rv) || rv == sw.Value() {
+				continue
+			}
+			if derivesFrom(rv, func(x ssa.Value) bool { return x == sw.Value() }) {
+				continue
+			}
+			viaOwner := false
+			for _, g := range guardsAt(b) {
+				for _, gg := range expandGuard(g) {
+					if bo, isB := gg.Cond.(*ssa.BinOp); isB && (bo.X == owner || bo.Y == owner) {
+						viaOwner = true
+					}
+				}
+			}
+			if !viaOwner {
+				extra = c.InstrPos(r)
 			}
 		}
 	}
